@@ -170,7 +170,7 @@ func runC20(cfg *runCfg) error {
 						c.Frags(parsed.Fragments), c.S(opTypeName(op)), c.Sels(op.SelectionSet), c.fstep(plans[oi].RootStep))
 					doc.Dist["model:plan2-compared"]++
 				}
-				c.Printf("Eval vm_compute in (%d%%nat, model_agrees %s %s%s, property_holds %s %s).\n", id, common, obsTerm, planModel, common, obsTerm)
+				c.Printf("Eval vm_compute in (\"%d\"%%string, model_agrees %s %s%s, property_holds %s %s).\n", id, common, obsTerm, planModel, common, obsTerm)
 				// non-trivial: some field of the query is offered by two or more services
 				for _, f := range fields {
 					_ = f
